@@ -40,7 +40,7 @@ def check(ctx):
                       "ndarrays (default index), and every moment's load_data hands those to the base loader")
     ctx.assume("values returned by wrapped estimators (predict, predict_proba, ...) are label-free ndarrays")
     ctx.assume("a dict passed as sensitive_features / control_features / sample_params holds 1-d arrays (documented contract)")
-    ctx.assume("X is not a label source: it is handed to the wrapped estimator untouched")
+    ctx.assume("X is handed to the wrapped estimator untouched (not a sink); its row labels are a label source like those of y")
     prog = ctx.prog
     eps = entry_points(prog)
     n_eps, n_san = label_sinks(ctx, "R12.1", eps)
